@@ -212,7 +212,8 @@ def check_item(spec):
     ins = [x for a in ref.args for x in a.bitvec]
     env = boolq.seq_env(ref.expressions, ins)
     want = z3.And(*[env[r] for r in ref.returns.bitvec])
-    fd, path = tempfile.mkstemp(prefix="qv_c17_", suffix=".py", dir="/var/tmp")
+    # the input file is any path the user names: with and without a python suffix
+    fd, path = tempfile.mkstemp(prefix="qv_c17_", suffix=(".py", "", ".txt", ".qlassf")[int(item_id(spec), 16) // 2 % 4], dir="/var/tmp")
     os.write(fd, scr.encode())
     os.close(fd)
     try:
@@ -232,7 +233,6 @@ def check_item(spec):
                 finding("tool-raises", "%s raises %s: %s" % (" ".join(argv[1:]), type(e).__name__, str(e)[:100]))
                 return st.into(res)
             text = out.strip()
-            text = "\n".join(l for l in text.split("\n") if not l.startswith("Warning:"))
             if not text:
                 finding("no-output", "%s printed nothing (stderr: %s)" % (" ".join(argv[1:]), err.strip()[:80]))
                 return st.into(res)
